@@ -45,6 +45,12 @@ class DiscStorage:
             return set()
 
     def persist(self, name):
+        if "*" not in name:
+            # the code contains the complete hash (hash-length >= 64),
+            # but the file which has to be persisted has the suffix "-new"
+            stem, dot, suffix = name.rpartition(".")
+            name = f"{stem}*{dot}{suffix}"
+
         try:
             file = self._lookup_path(name)
         except HashError:
